@@ -32,13 +32,46 @@ def note_missing(ctx: Optional[Ctx], e: AnalysisError):
         e.missing = ""
 
 
+def loop_exit_census(ctx: Ctx):
+    """Generic obligation over every function a pack extracted: a `for` loop whose body ends, on a path without any
+    python-level test inside the loop, in `break` or `return` handles the first element only.  Rules state their
+    obligations per loop element ("for every transaction ..."); a loop cut short after one element would satisfy them
+    all, so it is reported here, once, whatever the pack."""
+    from . import stage
+
+    seen = set()
+    for func, exs in stage.EXTRACTED:
+        for ex in exs:
+            for f in ex.facts:
+                kind = f.kind if isinstance(f, stage.Jump) else ("return" if isinstance(f, stage.Return) and f.callid is None else None)
+                if kind not in ("break", "return"):
+                    continue
+                idx = [k for k, fr in enumerate(f.frames) if fr[0] == "for"]
+                if not idx:
+                    continue
+                inner = f.frames[idx[-1] + 1:]
+                # (the frame that stands for "not skipped by an earlier `if ..: continue`" does not make the exit conditional)
+                if any(fr[0] in ("py", "match", "except", "while") and not (len(fr) > 3 and fr[3] == "skip") for fr in inner):
+                    continue
+                key = (func.qualname, f.site, kind)
+                if key in seen:
+                    continue
+                seen.add(key)
+                ctx.bad(f"{ctx.prop}.loop-cut-after-first-element", f.site, f"{func.qualname}.for", found=f"unconditional `{kind}` in the body of a for loop",
+                        required="a loop the obligations quantify over visits every element (an unconditional break / return in its body leaves after the first)")
+
+
 def run_rules(prop: str, tier: str, overrides: Optional[dict] = None) -> Ctx:
     mod = load_rules(prop)
     extra = tuple(getattr(mod, "EXTRA_DIRS_THOROUGH", ())) if tier == "thorough" else ()
     repo = Repo(REPO, overrides=overrides, extra_dirs=extra)
     ctx = Ctx(prop, tier, repo)
     try:
+        from . import stage
+
+        stage.EXTRACTED.clear()
         mod.check(ctx)
+        loop_exit_census(ctx)
     except AnalysisError as e:
         note_missing(ctx, e)
         e.ctx = ctx  # type: ignore[attr-defined]
@@ -134,7 +167,11 @@ def main(argv: list[str]) -> int:
         extra_dirs = tuple(getattr(mod, "EXTRA_DIRS_THOROUGH", ())) if a.tier == "thorough" else ()
         repo = Repo(REPO, extra_dirs=extra_dirs)
         ctx = Ctx(prop, a.tier, repo)
+        from . import stage
+
+        stage.EXTRACTED.clear()
         mod.check(ctx)
+        loop_exit_census(ctx)
         extra = {}
         if a.tier == "thorough":
             extra["sensitivity"] = sensitivity_pass(prop, repo)
